@@ -5,6 +5,7 @@
 From Coq Require Import ZArith List Bool Permutation Lia.
 From ScV Require Import Base.CInt Gen.HashResize.
 From ScV Require Import C09.HashModel C09.HashProofs C09.PoolModel C09.PoolProofs C09.ListModel C09.ListProofs.
+From ScV Require Import C09.HashArrayModel C09.HashArrayProofs.
 Import ListNotations.
 Local Open Scope Z_scope.
 
@@ -44,6 +45,34 @@ Theorem C09_hash_new_size_positive :
   forall c n ns, 0 < n -> hash_new_size c n = Some ns -> 0 < ns.
 Proof. exact hash_new_size_pos. Qed.
 Print Assumptions C09_hash_new_size_positive.
+
+(* ---------- hash array: an insertion-ordered set with stable positions, for EVERY user hash function ---------- *)
+(* The model stores array POSITIONS in the hash table model above (position -1 = the element being looked up), as
+   sc_hash_array does.  For every history and every user hash/equality pair satisfying the sc_hash_new contract:
+   all return values and positions equal those of the insertion-ordered set (position = insertion rank), the array
+   holds the inserted elements in insertion order, the table enumerates every position exactly once, both
+   elem_counts are the cardinality, no two stored elements are equal.  Table resizes happen inside the run. *)
+Theorem C09_hash_array_refines :
+  forall (elem : Type) (hfu : elem -> Z) (equ : elem -> elem -> bool),
+    (forall a, equ a a = true) -> (forall a b, equ a b = true -> equ b a = true) ->
+    (forall a b c, equ a b = true -> equ b c = true -> equ a c = true) ->
+    (forall a b, equ a b = true -> hfu a = hfu b) ->
+  forall ops : list (haop elem),
+    let '(a, outs) := ha_run_from elem hfu equ (ha_new elem) ops in
+    let '(s, souts) := oset_run_from elem equ [] ops in
+    ha_arr elem a = s /\ Forall2 aout_equiv outs souts /\
+    Permutation (ha_positions elem a) (positions (length s)) /\ NoDup (ha_positions elem a) /\
+    hcount Z (ha_h elem a) = Z.of_nat (length s) /\
+    (forall i j x y, nth_error s i = Some x -> nth_error s j = Some y -> equ x y = true -> i = j).
+Proof. exact hash_array_refines. Qed.
+Print Assumptions C09_hash_array_refines.
+
+(* positions are stable: every operation except truncate keeps the array contents as a prefix *)
+Theorem C09_hash_array_positions_stable :
+  forall (elem : Type) (hfu : elem -> Z) (equ : elem -> elem -> bool) (a : harray elem) (op : haop elem),
+    op <> ATruncate -> exists t, ha_arr elem (fst (ha_step elem hfu equ a op)) = ha_arr elem a ++ t.
+Proof. exact hash_array_positions_stable. Qed.
+Print Assumptions C09_hash_array_positions_stable.
 
 (* ---------- pools ---------- *)
 (* for every legal history of alloc / free / write / read / truncate on a pool with positive item size:
